@@ -206,3 +206,35 @@ package algz
 //@   loop 1:
 //@     invariant len(super) == len(sub) && forall k in 0..i: super[k] == sub[k]
 //@     decreases len(sub) - i
+
+// ---------------------------------------------------------------------------------------------------------------
+// Trie.Insert (C05): program-wide node invariant.
+// ---------------------------------------------------------------------------------------------------------------
+//@ spec trieAsc() bool = forall n in refs(trieNode): kidsAscending(n.children)
+//@ spec trieKids() bool = forall n in refs(trieNode): forall k in 0..len(n.children): n.children[k].node != nil
+//@ spec trieSep() bool = forall a, b in refs(trieNode): (a != b && cap(a.children) > 0 && cap(b.children) > 0) ==> a.children.arr != b.children.arr
+// (slice headers of every node are well-formed: a Go language invariant, stated because quantified nodes are not typed)
+//@ spec trieWF() bool = forall n in refs(trieNode): 0 <= len(n.children) && len(n.children) <= cap(n.children)
+//@ spec trieOK() bool = trieAsc() && trieKids() && trieSep() && trieWF()
+//@ func Trie.Insert
+//@   requires t != nil && trieOK()
+//@   modifies anyof(trieNode.children), anyelems(trieNode.children), anyof(trieNode.isEnd)
+//@   ensures trieOK()
+//@   loop 1:
+//@     invariant 0 <= i && i <= len(pattern) && node != nil
+//@     invariant trieSep()
+//@     invariant trieWF()
+//@     invariant trieKids()
+//@     invariant trieAsc()
+//@     decreases len(pattern) - i
+//@   ghost nd = nil
+//@   ghost k0 = 0
+//@   at after-call4:
+//@     ghost nd = node
+//@     ghost k0 = len(node.children)
+//@   at after-call7:
+//@     assert len(nd.children) == k0 + 1 && forall k in 0..idx: nd.children[k].val < r
+//@     assert forall k in idx+1..k0+1: nd.children[k].val > r
+//@   at loop1.body-end:
+//@     assert kidsAscending(cast(trieNode, nd).children)
+//@     assert forall n in refs(trieNode): n != nd ==> kidsAscending(n.children)
